@@ -222,6 +222,39 @@ def mi_spec(bi, bj, T, nb):
     return tot
 
 
+def ob_mi_range(name, N, T, nb):
+    """_test_mutual_information (wrapper): the histogram range handed to the C routine is the common range of BOTH arrays
+    (scaling = 1 / (max - min) over original data and surrogates, range_min = the common minimum); the C routine is not run here"""
+    mod = kern.module("timeseries")
+    funcs = [mod.func_info("_test_mutual_information")]
+    od, su = sym_arr((N, T), "o", "float64"), sym_arr((N, T), "s", "float64")
+    allv = od.data + su.data
+    got = {}
+
+    def ext(cname, args, run, g):
+        got["args"] = args
+        return None
+    run = Run(mod, loop_bound=max(N, T, nb) + 1, extern=ext, split=False)
+    run.call("_test_mutual_information", [od.copy(), su.copy(), N, T, nb])
+    if "args" not in got:
+        return result(name, INCONCLUSIVE, reason="the C routine was not reached", functions=funcs, bound=f"N={N}, T={T}")
+    sc_, rmin_ = got["args"][3], got["args"][4]
+    gmin = gmax = allv[0]
+    for x in allv[1:]:
+        gmin = ite(lt(x, gmin), x, gmin)
+        gmax = ite(gt(x, gmax), x, gmax)
+    rejected = or_(*[e.cond for e in run.events if e.kind == "ZeroDivisionError"]) if run.events else False
+    width_bad = ne(mul(sc_, sub(gmax, gmin)), 1)
+    if isinstance(sc_, z3.ExprRef) and z3.is_app_of(sc_, z3.Z3_OP_DIV) and z3.is_rational_value(sc_.arg(0)) and sc_.arg(0).as_fraction() == 1:
+        width_bad = ne(sc_.arg(1), sub(gmax, gmin))          # scaling = 1 / width: compare the widths (keeps the query linear)
+    bad = [("histogram range is not the common range of original data and surrogates", and_(gt(gmax, gmin), or_(ne(rmin_, gmin), width_bad))),
+           ("data with a non-degenerate common range are rejected", and_(gt(gmax, gmin), rejected))]
+
+    def witfn(m):
+        return {"kind": "mi", "which": "surrogates", "N": N, "T": T, "bins": nb, "original": mv_nested(m, od), "surrogates": mv_nested(m, su)}
+    return decide_list(name, run.assumptions, bad, funcs, f"N={N}, T={T}, symbolic data (any reals)", "C10|_test_mutual_information|range", witfn)
+
+
 def ob_mi_kernel(name, which, N, T, nb):
     """histogram mutual information: (1) the symbol (bin number) the routine assigns to every sample is the bin of the rescaled sample,
     (2) for every assignment of bins to samples (case split; each case covers all data falling into those bins) every entry equals
@@ -242,7 +275,7 @@ def ob_mi_kernel(name, which, N, T, nb):
         od, su = sym_arr((N, T), "o", "float64"), sym_arr((N, T), "s", "float64")
         allv = od.data + su.data
     hyps = [z3.And(x >= lo, x <= hi) for x in allv] + [z3.Or(*[x == lo for x in allv]), z3.Or(*[x == hi for x in allv])]
-    run = Run(mod, loop_bound=max(N, T, nb) + 1, extern=extern_for(pkg), hyps=hyps, split=False)
+    run = Run(mod, loop_bound=max(N, T, nb) + 1, extern=extern_for(pkg, stop=False), hyps=hyps, split=False)
     if which == "climate":
         out = run.call(fn, [an.copy(), T, N, nb, 1, 0])
         sym1 = sym2 = run.c_last_args[6].arr
@@ -253,8 +286,10 @@ def ob_mi_kernel(name, which, N, T, nb):
         sym1, sym2 = run.c_last_args[7].arr, run.c_last_args[8].arr
         B = [[bin_spec(od.get(i, k), lo, 1, nb) for k in range(T)] for i in range(N)]
         B2 = [[bin_spec(su.get(i, k), lo, 1, nb) for k in range(T)] for i in range(N)]
-    allh = hyps + run.assumptions
-    exc = or_(*[e.cond for e in run.events if e.kind not in ("DomainError",)]) if run.events else False
+    # inputs the wrapper rejects with a Python exception (constant data: 1/(max-min)) are outside the statistic's domain
+    rejected = or_(*[e.cond for e in run.events if e.kind == "ZeroDivisionError"]) if run.events else False
+    allh = hyps + run.assumptions + [not_(rejected)]
+    exc = or_(*[e.cond for e in run.events if e.kind not in ("DomainError", "ZeroDivisionError")]) if run.events else False
 
     def witfn(m):
         w = {"kind": "mi", "which": which, "N": N, "T": T, "bins": nb}
@@ -654,6 +689,8 @@ def obligations(tier):
         obs.append((ob_pure_vs_compiled, dict(name=f"C10|pure-python vs compiled|N={N},window={R}", N=N, R=R), 900))
     for N, T in ([(2, 2), (2, 3), (3, 2)] + ([(3, 3), (4, 3), (2, 5)] if th else [])):
         obs.append((ob_pearson_test, dict(name=f"C10|test_pearson_correlation|N={N},T={T}", N=N, T=T), 900))
+    for N, T in ([(2, 2), (2, 3), (3, 2)]):
+        obs.append((ob_mi_range, dict(name=f"C10|histogram MI range (surrogates)|N={N},T={T}", N=N, T=T, nb=2), 900))
     for which in ("climate", "surrogates"):
         for N, T, nb in ([(2, 2, 2), (2, 3, 2)] + ([(3, 2, 2), (2, 3, 3), (3, 3, 2)] if th else [])):
             obs.append((ob_mi_kernel, dict(name=f"C10|histogram MI ({which})|N={N},T={T},bins={nb}", which=which, N=N, T=T, nb=nb), 2400))
